@@ -38,6 +38,9 @@ type DiffCase struct {
 	Pre  []Step `json:"pre,omitempty"`
 	Mid  []Step `json:"mid,omitempty"`
 	Post []Step `json:"post,omitempty"`
+	// Again > 0: afterwards New is called on one pair of slices repeatedly,
+	// with in-place updates of their contents in between (up to 3 rounds).
+	Again int `json:"again,omitempty"`
 }
 
 // Step is one further operation on a Diff.  Op "ctx" is AddContext(N) (it may
@@ -514,6 +517,40 @@ func runC13(c DiffCase, o *vk.Obs) string {
 		if n > 1<<30 || base[i].ls-base[i-1].le < 2*n {
 			overlapOrMeet = true
 		}
+	}
+	if c.Again > 0 && len(c.L)+len(c.R) > 0 {
+		// New on the SAME two slices again after their contents were changed in
+		// place (same storage, same lengths): each call must describe what the
+		// slices hold when it is made
+		l2, r2 := slices.Clone(c.L), slices.Clone(c.R)
+		all := append(slices.Clone(c.L), c.R...)
+		for round := 0; round <= min(c.Again, 3); round++ {
+			if round > 0 {
+				if len(l2) > 0 {
+					l2[(round*3+c.N&7)%len(l2)] = all[(round*5+1)%len(all)]
+				}
+				if len(r2) > 0 {
+					r2[(round*7+1)%len(r2)] = all[(round*11+c.N&3)%len(all)]
+				}
+				if round == 2 && len(l2) == len(r2) {
+					copy(r2, l2) // now equal: the diff must be empty
+				}
+			}
+			o.Step()
+			d2 := mdiff.New(l2, r2)
+			wl, wr := slices.Clone(l2), slices.Clone(r2)
+			stage := fmt.Sprintf("New called again on the same slices after %d in-place update(s), now L=%s R=%s", round, showLines(wl), showLines(wr))
+			if m := applyScript(d2.Edits, wl, wr); m != "" {
+				return fail(stage, m)
+			}
+			if m := checkChunks(d2.Chunks, wl, wr, true, false); m != "" {
+				return fail(stage, m)
+			}
+			if slices.Equal(wl, wr) != (len(d2.Chunks) == 0) {
+				return fail(stage, fmt.Sprintf("%d chunks for inputs that are equal=%v", len(d2.Chunks), slices.Equal(wl, wr)))
+			}
+		}
+		o.Class("New_again_after_in_place_update")
 	}
 	final := make([]span, len(d.Chunks))
 	for i, ch := range d.Chunks {
